@@ -7,6 +7,9 @@ CONSTANTS
   MaxT = 3
   Phases <- obscure_q_Phases
   ShapeSet <- obscure_q_Shapes
+  Signers = {"s1", "s2"}
+  Recipients = {"r1", "r2"}
+  Policies <- obscure_q_Policies
   CfgName = "obscure_q"
 INIT Init
 NEXT Next
